@@ -102,6 +102,8 @@ ENDINGS = [
     ('return-False', dict(target='ret_value', targs=[False]), ('value', 'False'), False),
     ('return-list', dict(target='build', targs=['list', 3]), ('value', '[0, 1, 2]'), False),
     ('return-val', dict(target='build', targs=['val', 2]), ('value', "Val((2, [2]), {'k': {'n': 2}})"), False),
+    ('return-slowbox', dict(target='ret_slow', targs=[42, 0.8]), ('value', 'SlowBox(42)'), False),
+    ('raise-slowerr', dict(target='ret_slow', targs=[43, 0.8, True]), ('error', 'SlowError'), False),
     ('raise-ValueError', dict(target='raise_exc', targs=['ValueError', 'a', 1]), ('error', 'ValueError'), False),
     ('raise-KeyError', dict(target='raise_exc', targs=['KeyError', 'k']), ('error', 'KeyError'), False),
     ('raise-Custom', dict(target='raise_exc', targs=['Custom', 'x']), ('error', 'CustomError'), False),
@@ -121,7 +123,7 @@ PERS_ENDINGS = [
 def plain_endings(chk, tier, wd):
     jobs = []
     # how death is first observed matters (a wait() in progress reads the report on a different path than a later look)
-    for via in ('wait', 'poll', 'late'):
+    for via in ('wait', 'poll', 'late', 'mixed'):
         for cls in lp.ONE_SHOT:
             for name, sp, exp, ak in ENDINGS:
                 jobs.append((cls, name + '/' + via, dict(sp, cls=cls, quiet=False, observe_via=via), exp, ak))
